@@ -10,7 +10,7 @@ import contracts.factories as FC
 
 F = CT.FILE
 FUNCTIONS = [(F, '_TabulationCutoff._init_cutoff'), (FC.FILE, 'PairTabulationFactory.extract_cutoffs'), (FC.FILE, 'EAMTabulationFactory.extract_cutoffs'),
-             (FC.FILE, 'DLPOLY_PairTabulationFactory.extract_cutoffs'), (contracts.pair_tabulation.FILE, 'LAMMPS_PairTabulation.write')]
+             (FC.FILE, 'DLPOLY_PairTabulationFactory.extract_cutoffs'), (FC.FILE, 'LAMMPS_PairTabulationFactory.extract_cutoffs'), (contracts.pair_tabulation.FILE, 'LAMMPS_PairTabulation.write')]
 
 def lemmas():
     out = []
